@@ -436,6 +436,6 @@ mod tests {
 // Verification harnesses (compiled only by `cargo kani`; inert otherwise).
 #[cfg(kani)]
 #[allow(dead_code, unused_imports)]
-mod verif {
+pub(crate) mod verif {
     include!(concat!(env!("BTDHT_VERIF"), "/harness/compact.rs"));
 }
